@@ -51,4 +51,26 @@ theorem split_usec (us : Nat) : ((us / 1000000 : Nat) : Int) * 1000000 + ((us % 
     (0:Int) ≤ ((us / 1000000 : Nat) : Int) ∧ (0:Int) ≤ ((us % 1000000 : Nat) : Int) ∧ ((us % 1000000 : Nat) : Int) < 1000000 := by
   omega
 
+
+/-- the timeout handed to `poll` for a timer due at `dl` µs when the clock reads `clock` µs:
+    `events_timer_min`'s difference pushed through `events_network_select`'s conversion is exactly
+    `ceilMs` of the time that is left (0 once the timer is due) -/
+theorem selectTimeout_timerDiff (clock dl : Nat) :
+    selectTimeout (some (timerDiff clock ((dl / 1000000 : Nat) : Int) ((dl % 1000000 : Nat) : Int))) = C05.ceilMs (dl - clock) := by
+  unfold timerDiff selectTimeout C05.ceilMs C05.INT_MAX
+  simp only
+  split
+  · -- already expired (strictly)
+    rename_i h
+    have : dl - clock = 0 := by omega
+    simp [this]
+  · rename_i h
+    split
+    · rename_i h2
+      simp only
+      split <;> split <;> omega
+    · rename_i h2
+      simp only
+      split <;> split <;> omega
+
 end Percival.Proofs.EventsTQ
